@@ -244,7 +244,9 @@ func (u *UnitsDefinition) parse(data string) (any, error) {
 		}
 	}
 	if u.reCache == nil {
-		u.updateReCache()
+		if err := u.updateReCache(); err != nil {
+			return 0, err
+		}
 	}
 	match := u.reCache.FindStringSubmatch(data)
 	if match == nil {
@@ -331,7 +333,7 @@ func (u *UnitsDefinition) handleParseMultiplier(
 	return intNumber, floatNumber, isFloat, nil
 }
 
-func (u *UnitsDefinition) updateReCache() {
+func (u *UnitsDefinition) updateReCache() error {
 	var parts []string
 	if u.MultipliersValue != nil {
 		for _, multiplier := range u.getSortedMultipliersCache() {
@@ -354,11 +356,21 @@ func (u *UnitsDefinition) updateReCache() {
 		regexp.QuoteMeta(u.BaseUnitValue.NameLongPlural()),
 	))
 	regex := "^\\s*" + strings.Join(parts, "\\s*") + "\\s*$"
-	u.reCache = regexp.MustCompile(regex)
+	// The multipliers become group names: a multiplier that is negative, or 1 (the base unit's), does not give a
+	// valid expression. A units definition can arrive as data, so this must not panic.
+	compiled, err := regexp.Compile(regex)
+	if err != nil {
+		return &UnitParseError{
+			Message: "Invalid units definition for " + u.BaseUnitValue.NameLongPlural() + ", multipliers must be greater than 1",
+			Cause:   err,
+		}
+	}
+	u.reCache = compiled
 	u.reSubExpNames = map[string]int{}
 	for i, subExpName := range u.reCache.SubexpNames() {
 		u.reSubExpNames[subExpName] = i
 	}
+	return nil
 }
 
 func (u *UnitsDefinition) buildUnitParseError(data string) (any, error) {
